@@ -154,6 +154,13 @@ pub async fn run(cx: &mut Ctx) {
                 quiesce().await;
                 cx.log.push(format!("    => {}", out.brief()));
                 if std::env::var_os("RLSIM_DEBUG_ROWS").is_some() {
+                    if let Outcome::Ok(rows) = &out {
+                        for r in rows.iter().take(40) {
+                            for l in row_brief(r).lines() {
+                                cx.log.push(format!("       | {l}"));
+                            }
+                        }
+                    }
                     use std::hash::{BuildHasher, Hasher};
                     let rs = std::collections::hash_map::RandomState::new();
                     let mut h = rs.build_hasher();
@@ -169,7 +176,7 @@ pub async fn run(cx: &mut Ctx) {
                 // ---- C05: twin comparison
                 if let Some(mem) = &mem {
                     // reach: which storage-order-dependent operators the on-disk plan uses
-                    if let (Stmt::Raw(_), true) = (s, out.is_ok()) {
+                    if let (Stmt::Raw(_) | Stmt::RawOrdered { .. }, true, 0) = (s, out.is_ok(), i % 3) {
                         if let Outcome::Ok(rows) = db.exec(&format!("EXPLAIN {sql}")).await {
                             let plan = format!("{rows:?}");
                             for (needle, probe) in [
@@ -224,6 +231,17 @@ pub async fn run(cx: &mut Ctx) {
                                         multiset_diff(a, b)
                                     }
                                 }
+                                Stmt::RawOrdered { keys, .. } => {
+                                    if key_proj(a, keys) != key_proj(b, keys) {
+                                        Some(format!(
+                                            "key sequences differ: disk [{}] mem [{}]",
+                                            rows_brief(&key_proj(a, keys), 12),
+                                            rows_brief(&key_proj(b, keys), 12)
+                                        ))
+                                    } else {
+                                        multiset_diff(a, b).map(|d| format!("disk vs mem: {d}"))
+                                    }
+                                }
                                 Stmt::Select(q) if q.limit.is_some() || q.offset.is_some() => {
                                     // which rows come back is engine-specific; count must agree
                                     (a.len() != b.len())
@@ -251,12 +269,18 @@ pub async fn run(cx: &mut Ctx) {
                             }
                         }
                         (Outcome::Ok(_), _) | (_, Outcome::Ok(_)) => {
-                            cx.violate(Violation::new(
-                                "C05",
-                                "twin-outcome",
-                                Some(i),
-                                format!("{sql}: disk {} but memory {}", out.brief(), mo.brief()),
-                            ));
+                            // class = how the failing twin failed
+                            let failing = if out.is_ok() { &mo } else { &out };
+                            let side = if out.is_ok() { "mem" } else { "disk" };
+                            cx.violate(
+                                Violation::new(
+                                    "C05",
+                                    "twin-outcome",
+                                    Some(i),
+                                    format!("{sql}: disk {} but memory {}", out.brief(), mo.brief()),
+                                )
+                                .with_sig(&format!("{side}:{}", err_class(failing))),
+                            );
                         }
                         _ => {}
                     }
